@@ -168,7 +168,22 @@ pub fn check_text(l: &mut Lsp, n: &mut u64, text: &str, rng: &mut Rng, st: &mut 
     *n += 1;
     let uri = format!("file:///c15/d{n}.st");
     let h = |e: String| if let Some(m) = e.strip_prefix("EDIT|") { ("full|edit-not-applicable".to_string(), m.to_string()) } else { ("harness".to_string(), e) };
-    let (f1, ne) = format_full(l, &uri, text, &opts).map_err(h)?;
+    // the source text stays open under `uri` for all requests about it (requests return edits, they do not change the document)
+    l.open(&uri, text);
+    let res = check_open_text(l, n, &uri, text, rng, st, &opts, &h);
+    l.close(&uri);
+    res
+}
+
+#[allow(clippy::too_many_arguments)]
+fn check_open_text(l: &mut Lsp, n: &mut u64, uri: &str, text: &str, rng: &mut Rng, st: &mut Stats, opts: &J, h: &dyn Fn(String) -> (String, String)) -> Result<(), (String, String)> {
+    let (f1, ne) = {
+        let r = l.request("textDocument/formatting", json!({"textDocument": {"uri": uri}, "options": opts})).map_err(h)?;
+        let mut ed = Editor::new(text);
+        let edits = r.as_array().cloned().unwrap_or_default();
+        ed.apply_edits(&edits).map_err(|e| h(format!("EDIT|{e}")))?;
+        (ed.text, edits.len())
+    };
     st.full += 1;
     st.edits += ne as u64;
     if f1 != text {
@@ -177,7 +192,7 @@ pub fn check_text(l: &mut Lsp, n: &mut u64, text: &str, rng: &mut Rng, st: &mut 
     same_program(text, &f1).map_err(|(c, d)| (format!("full|{c}"), format!("{d}\n--- source ---\n{text}\n--- formatted ---\n{f1}")))?;
     // idempotence
     *n += 1;
-    let (f2, _) = format_full(l, &format!("file:///c15/d{n}.st"), &f1, &opts).map_err(h)?;
+    let (f2, _) = format_full(l, &format!("file:///c15/d{n}.st"), &f1, opts).map_err(h)?;
     if f2 != f1 {
         let at = f1.bytes().zip(f2.bytes()).position(|(a, b)| a != b).unwrap_or(f1.len().min(f2.len()));
         return Err(("full|not-idempotent".into(), format!("formatting the formatted text changes it again near byte {at}: {:?} -> {:?}", &f1[at.saturating_sub(20)..(at + 20).min(f1.len())].to_string(), f2.get(at.saturating_sub(20)..(at + 20).min(f2.len())))));
@@ -186,14 +201,10 @@ pub fn check_text(l: &mut Lsp, n: &mut u64, text: &str, rng: &mut Rng, st: &mut 
     let ed0 = Editor::new(text);
     let nl = ed0.line_count();
     for _ in 0..3 {
-        *n += 1;
-        let uri = format!("file:///c15/d{n}.st");
         let a = rng.usize(nl);
         let b = (a + rng.usize(4)).min(nl - 1);
         let end_col = Editor::utf16_len(ed0.line(b).unwrap_or(""));
-        l.open(&uri, text);
         let r = l.request("textDocument/rangeFormatting", json!({"textDocument": {"uri": uri}, "range": {"start": {"line": a, "character": 0}, "end": {"line": b, "character": end_col}}, "options": opts})).map_err(|e| ("harness".to_string(), e))?;
-        l.close(&uri);
         st.range += 1;
         let edits = r.as_array().cloned().unwrap_or_default();
         st.edits += edits.len() as u64;
@@ -217,11 +228,7 @@ pub fn check_text(l: &mut Lsp, n: &mut u64, text: &str, rng: &mut Rng, st: &mut 
     };
     for _ in 0..3.min(positions.len()) {
         let (ln, col, ch) = positions[rng.usize(positions.len())];
-        *n += 1;
-        let uri = format!("file:///c15/d{n}.st");
-        l.open(&uri, text);
         let r = l.request("textDocument/onTypeFormatting", json!({"textDocument": {"uri": uri}, "position": {"line": ln, "character": col}, "ch": ch, "options": opts})).map_err(|e| ("harness".to_string(), e))?;
-        l.close(&uri);
         st.ontype += 1;
         let edits = r.as_array().cloned().unwrap_or_default();
         st.edits += edits.len() as u64;
